@@ -280,3 +280,51 @@ def check(run, prog, tier):
                "error() at line %s is reachable (path %s) with the half-built sentence still attached to the connection" % (bad[0][0], bad[0][1][:8]), f.file, bad[0][0] if bad else n0.get("l"), f.name,
                what="%s can raise an error while a sentence without a callback is attached to the user: the next input line dereferences its NULL function pointer" % f.name)
     run.need(nh >= 2, "functions attaching an input_to sentence (found %d)" % nh)
+
+    # ---- C09-i a connection that still hangs on the master object is not abandoned by an error
+    run.rule("C09-i", "while a new connection is attached to the master object (from the store `master_ob->interactive = <record>` until it is handed to its user object, `master_ob->interactive = 0`, or removed with remove_interactive()), no call that can raise an error is made: the error would jump to the backend loop past the clean-up, the next connection overwrites the pointer, and the socket is never closed", 2)
+    import callgraph as _cgi
+    cgi = _cgi.CallGraph(prog)
+    effi = _cgi.Effects(cgi)
+
+    def is_master_ia(e):
+        e = strip(e)
+        return e.get("k") == "Mem" and e.get("f") == "interactive" and strip(e["b"]).get("k") == "Ref" and strip(e["b"]).get("n") == "master_ob"
+    ni = 0
+    for f in sorted(prog.functions(), key=lambda x: (x.file, x.line)):
+        if "/src/" not in f.file:
+            continue
+        attach = [(b, i, n) for b, i, n in f.nodes() if n.get("k") == "Asg" and n.get("op") == "=" and is_master_ia(n["L"]) and const_val(n["R"]) != 0]
+        detach = {b.id for b, i, n in f.nodes() if n.get("k") == "Asg" and n.get("op") == "=" and is_master_ia(n["L"]) and const_val(n["R"]) == 0}
+        detach |= {b.id for b, i, n in f.calls("remove_interactive")}
+        starts = []
+        if attach:
+            starts = [(b, i, "attached at line %s" % n.get("l")) for b, i, n in attach]
+        elif detach and any(is_master_ia(x) for b, i, n in f.nodes() for x in walk(n)) and any(n.get("k") == "Asg" and is_master_ia(n["L"]) for b, i, n in f.nodes()):
+            # a function that only completes the hand-over (mudlib_connect): the record is attached when it is entered
+            starts = [(f.blocks[f.entry], -1, "attached on entry")]
+        for b, i, how in starts:
+            ni += 1
+            run.saw(f)
+            region = cfgq.reach_set(f, b.live_succ(), avoid_blocks=detach) | {b.id}
+            risky = []
+            for b2, i2, n2 in f.calls():
+                if b2.id not in region or (b2.id == b.id and i2 <= i) or n2.get("fn") in ("fatal",):
+                    continue
+                if b2.id in detach:
+                    continue
+                if effi.call_may_raise(f, n2):
+                    why = _cgi.why(cgi, n2.get("fn"), _cgi.RAISE_SEEDS, barriers=_cgi.CATCH_BARRIERS) if n2.get("fn") else None
+                    risky.append((n2.get("fn") or "(*)", n2.get("l"), " -> ".join(why or [])[:100]))
+            # the push helpers raise only when the value stack is full; these functions run from the backend's event
+            # loop with an (almost) empty stack - not decided rather than alarmed
+            stack_only = {g.name for g in prog.functions() if g.file.endswith("src/stack.c") and g.name.startswith(("push_", "copy_and_push", "share_and_push"))}
+            hard = [r for r in risky if r[0] not in stack_only]
+            if risky and not hard:
+                run.ob("C09-i", "pending-connection:%s:%s" % (rel(f.file), f.name), None, "%s; only value-stack pushes (%s) can raise here, and only on a full stack: not decided" % (how, ", ".join(sorted({r[0] for r in risky}))), f.file, f.line, f.name)
+                continue
+            risky = hard
+            run.ob("C09-i", "pending-connection:%s:%s" % (rel(f.file), f.name), not risky, "%s: nothing that can raise runs before the connection is handed over or removed" % how if not risky else
+                   "%s; %s() at line %s can raise (%s) while the connection still hangs on the master object" % (how, risky[0][0], risky[0][1], risky[0][2]), f.file, risky[0][1] if risky else f.line, f.name,
+                   what="%s can be left by error() with a half-accepted connection attached to the master object" % f.name)
+    run.need(ni >= 2, "functions handling a connection attached to master_ob (found %d)" % ni)
